@@ -5,6 +5,7 @@
 //	globalrand <file>:<func> <call>             uses of math/rand package-level functions, time.Now, crypto/rand
 //	globalvar <file> <name> <type>              package-level variables of mutable type (map, slice, pointer, struct, chan, func)
 //	globalwrite <file>:<func> <name>            assignments to / mutations of package-level variables outside init()
+//	concurrency <file>:<func> <go|select|sync> goroutine starts, select statements and uses of sync / sync/atomic (scheduling-dependent constructs)
 package main
 
 import (
@@ -132,6 +133,18 @@ func main() {
 						for _, l := range v.Lhs {
 							if g := rootGlobal(p.TypesInfo, l, globals); g != "" && fn != "init" {
 								out = append(out, fmt.Sprintf("globalwrite %s:%s %s", fname, fn, g))
+							}
+						}
+					case *ast.GoStmt:
+						out = append(out, fmt.Sprintf("concurrency %s:%s go", fname, fn))
+					case *ast.SelectStmt:
+						out = append(out, fmt.Sprintf("concurrency %s:%s select", fname, fn))
+					case *ast.SelectorExpr:
+						if id, ok := v.X.(*ast.Ident); ok {
+							if pn, ok := p.TypesInfo.Uses[id].(*types.PkgName); ok {
+								if path := pn.Imported().Path(); path == "sync" || path == "sync/atomic" {
+									out = append(out, fmt.Sprintf("concurrency %s:%s %s.%s", fname, fn, path, v.Sel.Name))
+								}
 							}
 						}
 					case *ast.IncDecStmt:
